@@ -9,10 +9,10 @@ import (
 
 func init() {
 	props["C06"] = &propCheck{
-		lean: []string{"JSight.Props.C06"},
-		exes: []string{"jsight-ctx"},
-		run:  runC06,
-		rule: "all sequences of the directive kinds (INCLUDE excluded) with '(' after any directive and ')' at any point up to the length bound, HTTP methods with and without a path, random sequences beyond it; each sequence is rendered with minimal valid parameters and bodies; non-trivial = at least one directive is placed by walking up at least one level or at least one context is closed; distinct = distinct token sequence",
+		lean:    []string{"JSight.Props.C06"},
+		exes:    []string{"jsight-ctx"},
+		run:     runC06,
+		rule:    "all sequences of the directive kinds (INCLUDE excluded) with '(' after any directive and ')' at any point up to the length bound, HTTP methods with and without a path, random sequences beyond it; each sequence is rendered with minimal valid parameters and bodies; non-trivial = at least one directive is placed by walking up at least one level or at least one context is closed; distinct = distinct token sequence",
 		trusted: []string{"the rendering of kind sequences to bytes (sequences the scanner refuses for lexical reasons are counted and skipped)"},
 	}
 }
@@ -120,6 +120,9 @@ func runC06(ctx *Ctx) {
 	for i := 0; i < ctx.Budget(40000, 1500000); i++ {
 		seqs = append(seqs, randCToks(r, al, 3+r.Intn(12)))
 	}
+	for i := 0; i < ctx.Budget(40000, 1500000); i++ {
+		seqs = append(seqs, plausibleCToks(r, 4+r.Intn(14), false))
+	}
 	runs := make([]ctxRun, len(seqs))
 	parallelFor(len(seqs), func(i int) { runs[i] = runCtx(seqs[i]) })
 
@@ -140,6 +143,32 @@ func runC06(ctx *Ctx) {
 		idx = append(idx, i)
 	}
 	Corr(ctx, "core.scanProject directive tree vs Model.Context.resolve", "jsight-ctx", reqs, func(k int) string { return runs[idx[k]].Scan })
+	// the same resolution is re-run over the directive trees after macro expansion (processDirective): without
+	// macros its result must be the same forest again
+	var reqs2 []string
+	var idx2 []int
+	for _, i := range idx {
+		hasMacro := false
+		for _, t := range seqs[i] {
+			if !t.Close && (directive.Enumeration(t.Kind) == directive.Macro || directive.Enumeration(t.Kind) == directive.Paste) {
+				hasMacro = true
+			}
+		}
+		if !hasMacro && strings.HasPrefix(runs[i].Scan, "ok") && !strings.HasPrefix(runs[i].Paste, "other") {
+			reqs2 = append(reqs2, "expand "+ctoksProto(seqs[i]))
+			idx2 = append(idx2, i)
+		}
+	}
+	Corr(ctx, "core.processPaste re-resolution (documents without macros) vs Model.Paste.expand", "jsight-ctx", reqs2, func(k int) string { return runs[idx2[k]].Paste })
+	for _, i := range idx2 {
+		if strings.HasPrefix(runs[i].Paste, "ok") && runs[i].Paste != runs[i].Scan {
+			content, _ := renderCToks(seqs[i])
+			ctx.Violate(Violation{Kind: "wrong-output", Site: "core.processDirective",
+				What:     fmt.Sprintf("tokens %s: the tree after the paste phase %q differs from the scanned tree %q although there is no macro", ctoksProto(seqs[i]), runs[i].Paste, runs[i].Scan),
+				Input:    map[string]any{"op": "ctx", "tokens": ctoksProto(seqs[i]), "document": string(content)},
+				Observed: runs[i].Paste, Expected: runs[i].Scan, Signature: "reresolve-differs"})
+		}
+	}
 	ctx.Cov.Notes = append(ctx.Cov.Notes, fmt.Sprintf("%d of %d sequences skipped (rendering refused for lexical reasons)", skipped, len(seqs)))
 
 	// search: the declarative statement on the implementation's trees
